@@ -28,7 +28,7 @@ func init() {
 
 // or4Reviewed: descents that cannot happen for a reason outside the function (one line each).
 var or4Reviewed = map[string]string{
-	"notations/jschema.(*exampleBuilder).buildObjectKey|Build":                         "the type behind a key shortcut resolves to a string or Check — which Example runs first — fails with code 1304 (checked on {@k: 1} with @k an object, an array and an alias cycle); a string type's root is a literal or a chain of aliases, and aliases descend through buildExampleForMixedValueNode, which counts",
+	"notations/jschema.(exampleBuilder).buildObjectKey|Build":                          "the type behind a key shortcut resolves to a string or Check — which Example runs first — fails with code 1304 (checked on {@k: 1} with @k an object, an array and an alias cycle); a string type's root is a literal or a chain of aliases, and aliases descend through buildExampleForMixedValueNode, which counts",
 	"notations/jschema/internal/checker.(checkSchema).checkArrayItems|checkArrayItems": "an array node cannot carry a types list: the rule loader rejects type / or rules on a node written as an array or object literal (codes 1107, 1108), and type shortcuts make mixed-value nodes, not array nodes — the loop body is dead",
 }
 
